@@ -6,8 +6,8 @@
           py_exec_strict add the guards of the two known findings), Spec/C03Rel.v (ns_at, kind_ok, doc_ok).
    `clean` = inspect.cleandoc (oracle).  What an import statement binds is part of the statement (resolved-bases oracle). *)
 From Coq Require Import ZArith NArith List Bool.
-From PydoctorVerif Require Import Base.Sexp Model.MiniPy Model.Infer Model.Builder Spec.PyBind Spec.C03Rel
-     Gen.TablesC03 Proofs.InferProofs Proofs.BuilderProofs.
+From PydoctorVerif Require Import Base.Sexp Model.MiniPy Model.Infer Model.Builder Model.BuilderIR Spec.PyBind Spec.C03Rel
+     Gen.TablesC03 Gen.BuilderCode Proofs.InferProofs Proofs.BuilderProofs Proofs.BuilderIRProofs.
 Import ListNotations.
 
 Definition idc (t : text) : text := t.
@@ -194,6 +194,81 @@ Example C03_infer_type_bool_not_int :
   annotation_for_value (LDict [] []) = Some (AName t_dict) /\
   annotation_for_value (LTuple [LInt 1; LInt 2]) = Some (ATupleOf t_int).
 Proof. repeat split; reflexivity. Qed.
+
+(* ---- the model is the code ----------------------------------------------------------------------------------------------
+   Gen/BuilderCode.v holds the BODIES of astutils.infer_type / _annotation_for_value / _annotation_for_elements,
+   model.is_exception and ModuleVistor._handleOldSchoolMethodDecoration, translated statement by statement from the current
+   pydoctor source on every run (harness/gen/gen_c03_code.py, fail-closed) into the language of Model/BuilderIR.v.
+   Interpreting them is the hand-written model, for all inputs; the primitives (literal_eval, ast constructors, set of str,
+   mro(), contents.get, isinstance on the inspected trees) are the stated assumptions of Model/BuilderIR.v. *)
+Theorem C03_code_annotation_for_value_is_model :
+  forall literal_eval contents_get mro_of call_value v hk,
+    run_body [ival_of_value v] call_value model_elems literal_eval contents_get mro_of code_annotation_for_value hk
+    = RReturn (of_opt_past (model_value v)) hk.
+Proof. exact code_annotation_for_value_is_model. Qed.
+
+Theorem C03_code_annotation_for_elements_is_model :
+  forall literal_eval contents_get mro_of call_elems l hk,
+    run_body [VSeq l] model_value call_elems literal_eval contents_get mro_of code_annotation_for_elements hk
+    = RReturn (of_opt_past (model_elems l)) hk.
+Proof. exact code_annotation_for_elements_is_model. Qed.
+
+Theorem C03_code_infer_type_is_model :
+  forall literal_eval contents_get mro_of call_elems p hk,
+    run_body [VExpr p] model_value call_elems literal_eval contents_get mro_of code_infer_type hk
+    = RReturn (of_opt_past (model_infer literal_eval p)) hk.
+Proof. exact code_infer_type_is_model. Qed.
+
+(* ... and model_infer is Model.Builder.infer_value when literal_eval yields the literal of a literal expression and fails on
+   any other expression *)
+Theorem C03_code_infer_type_is_infer_value :
+  forall literal_eval p (v : aval),
+    literal_eval p = match v with AvLit l => Some l | AvOther => None end ->
+    model_infer literal_eval p = option_map past_of_annot (infer_value v).
+Proof. exact model_infer_is_infer_value. Qed.
+
+(* the property's theorem restated on the translated code: whatever the code of _annotation_for_value returns denotes the value *)
+Theorem C03_code_infer_type_sound :
+  forall literal_eval contents_get mro_of call_value v hk a,
+    run_body [ival_of_value v] call_value model_elems literal_eval contents_get mro_of code_annotation_for_value hk
+    = RReturn (VPast a) hk ->
+    exists t, a = past_of_annot t /\ denotes t v.
+Proof.
+  intros le cg mro cv v hk a H. rewrite code_annotation_for_value_is_model in H. unfold model_value in H.
+  destruct (annotation_for_value v) as [t|] eqn:E; cbn in H; [|discriminate].
+  exists t. split; [congruence|]. apply annotation_for_value_sound. exact E.
+Qed.
+
+Theorem C03_code_is_exception_is_model :
+  forall literal_eval contents_get call_value call_elems cls mro hk,
+    run_body [cls] call_value call_elems literal_eval contents_get mro code_is_exception hk
+    = RReturn (VBool (is_exception_mro mro)) hk.
+Proof. exact code_is_exception_is_model. Qed.
+
+(* the flag Model.Builder computes from the resolved bases is is_exception of the concatenated linearisations *)
+Theorem C03_code_is_exception_flag :
+  forall (lin : obj -> list mroent) rs,
+    (forall o, In (RClass o) rs -> match o with OClass e _ _ _ _ => e = is_exception_mro (lin o) | _ => is_exception_mro (lin o) = false end) ->
+    (forall e ih, ~ In (RImported e ih) rs) ->
+    existsb base_exc rs = is_exception_mro (flat_map (mro_of_resolved lin) rs).
+Proof. exact base_exc_is_exception. Qed.
+
+Theorem C03_code_oldschool_is_model :
+  forall literal_eval mro_of call_value call_elems target e (cg : text -> ival) hk,
+    (cg target = VFunRef \/ cg target = VOtherObj \/ cg target = VNone) -> hk <> KFunction ->
+    run_body [VStr target; ival_of_expr e] call_value call_elems literal_eval cg mro_of code_oldschool hk
+    = RReturn (VBool (fst (oldschool_spec target e (cg target) hk))) (snd (oldschool_spec target e (cg target) hk)).
+Proof. exact code_oldschool_is_model. Qed.
+
+Theorem C03_code_oldschool_spec_is_model :
+  forall n expr s k a d,
+    lookup n (contents s) = Some (OFun k a d) ->
+    match oldschool n expr s with
+    | Some s' => fst (oldschool_spec n (option_map pexpr_of_rhs expr) VFunRef k) = true /\
+                 contents s' = replace n (OFun (snd (oldschool_spec n (option_map pexpr_of_rhs expr) VFunRef k)) a d) (contents s)
+    | None => fst (oldschool_spec n (option_map pexpr_of_rhs expr) VFunRef k) = false
+    end.
+Proof. exact oldschool_spec_is_model. Qed.
 
 (* ---- witnesses ---------------------------------------------------------------------------------------------------- *)
 Definition nA : name := [65]%N.   Definition nB : name := [66]%N.   Definition nC : name := [67]%N.
